@@ -335,9 +335,10 @@ static void op_idx(hp_line *l)
 	uint64_t blocks = idx != NULL ? lzma_index_block_count(idx) : 0;
 	lzma_end(&strm);
 	// what stays allocated for the decoded index itself
-	printf(" idxlive=%" PRIu64 " memused=%" PRIu64 " blocks=%" PRIu64, cnt.live, memused, blocks);
+	uint64_t idxlive = cnt.live;
 	lzma_index_end(idx, &al);
-	printf(" leak=%" PRIu64 "%s\n", cnt.live, cnt.bad_free ? " BADFREE" : "");
+	printf(" leak=%" PRIu64 "%s | idxlive=%" PRIu64 " memused=%" PRIu64 " blocks=%" PRIu64 "\n", cnt.live, cnt.bad_free ? " BADFREE" : "",
+			idxlive, memused, blocks);
 	free(s.buf);
 	free(in);
 }
@@ -450,7 +451,8 @@ static void op_al_enc(hp_line *l, int kind)
 	}
 	report_alloc(ret, &cnt);
 	lzma_end(&strm);
-	printf(" leak=%" PRIu64 "%s\n", cnt.live, cnt.bad_free ? " BADFREE" : "");
+	uint64_t est = kind == 0 ? lzma_raw_decoder_memusage(ch.f) : lzma_raw_encoder_memusage(ch.f);
+	printf(" leak=%" PRIu64 "%s | est=%" PRIu64 "\n", cnt.live, cnt.bad_free ? " BADFREE" : "", est);
 }
 
 static void op_al_mtenc(hp_line *l)
